@@ -230,14 +230,15 @@ func cfgValue(r *RNG, k cfgKey) (any, string) {
 		if k.Kind == "bool" {
 			return Pick(r, []string{"true", "false", " TRUE ", "False"}), "coercible"
 		}
-		return fmt.Sprintf("%s%d%s", Pick(r, []string{"", " "}), cfgIntFor(r, k), Pick(r, []string{"", " "})), "coercible"
+		// decimal digits, possibly zero-padded or with an explicit plus sign
+		return fmt.Sprintf("%s%s%d%s", Pick(r, []string{"", " "}), Pick(r, []string{"", "", "", "0", "00", "+"}), cfgIntFor(r, k), Pick(r, []string{"", " "})), "coercible"
 	case 5: // non-positive
 		if k.Kind == "bool" {
 			return r.Bool(), "well-typed"
 		}
 		return float64(Pick(r, []int{0, -1, -50})), "non-positive"
 	case 6: // ill-typed
-		return Pick(r, []any{nil, []any{1, 2}, map[string]any{"x": 1}, "yes", "abc", "", "1.5x", "--3"}), "ill-typed"
+		return Pick(r, []any{nil, []any{1, 2}, map[string]any{"x": 1}, "yes", "abc", "", "1.5x", "--3", "0x10", "0b101", "1_0", "0o7", "1e1"}), "ill-typed"
 	case 7: // wrong scalar
 		if k.Kind == "bool" {
 			return float64(1), "ill-typed"
@@ -368,6 +369,21 @@ func c19Probe(s *Session, fx *c19Fixture, tag string) c19Obs {
 		p, _ := s.OpenWait(u, text)
 		return u, p
 	}
+	// a document that stays open and unedited across all events: does a request on it see the file
+	// at include depth 3? Asked first: opening or closing any document would refresh the stored trees.
+	ku := s.URI("keep.journal")
+	if _, isOpen := s.Srv.GetDocument(ku); !isOpen {
+		s.OpenWait(ku, c19KeepText)
+		s.Drain()
+	}
+	locs, _ := s.Srv.References(ctx, &protocol.ReferenceParams{TextDocumentPositionParams: protocol.TextDocumentPositionParams{TextDocument: protocol.TextDocumentIdentifier{URI: ku}, Position: protocol.Position{Line: 3, Character: 5}}, Context: protocol.ReferenceContext{IncludeDeclaration: true}})
+	sees := false
+	for _, l := range locs {
+		if strings.HasSuffix(string(l.URI), "/l3.journal") {
+			sees = true
+		}
+	}
+	obs["limits.open-document-sees-depth-3"] = fmt.Sprint(sees)
 	// completion
 	u, _ := open("acct", fx.acctText)
 	nlines := strings.Count(fx.acctText, "\n")
@@ -440,6 +456,8 @@ func c19Probe(s *Session, fx *c19Fixture, tag string) c19Obs {
 	obs["limits.depth-error"] = fmt.Sprint(deep)
 	obs["limits.size-error"] = fmt.Sprint(large)
 	s.Close(u)
+	// leave the battery with a tree of the kept document resolved under the present settings
+	s.Srv.References(ctx, &protocol.ReferenceParams{TextDocumentPositionParams: protocol.TextDocumentPositionParams{TextDocument: protocol.TextDocumentIdentifier{URI: ku}, Position: protocol.Position{Line: 3, Character: 5}}, Context: protocol.ReferenceContext{IncludeDeclaration: true}})
 	return obs
 }
 
@@ -489,8 +507,11 @@ func (m cfgModel) predict() c19Obs {
 		p["limits.depth-error"] = "false"
 		p["limits.size-error"] = "false"
 	}
+	p["limits.open-document-sees-depth-3"] = fmt.Sprint(m.Depth > 3)
 	return p
 }
+
+const c19KeepText = "include l1.journal\n\n2019-02-02 keep\n    a:b  1 USD\n    c:d\n"
 
 type c19State struct {
 	fx *c19Fixture
@@ -505,10 +526,10 @@ func c19Counts(tier string) int64 {
 
 func init() {
 	Register(&Prop{
-		ID:   "C19",
-		Race: true,
-		Rule: "sequences of 1-4 configuration events: optional initializationOptions, then didChangeConfiguration answered by a scripted workspace/configuration reply; payloads from a shape grammar over all JSON value kinds (recognised keys nested or dotted, optional {\"hledger\":…} wrapper with siblings, well-typed, coercible strings, non-positive, ill-typed (null/array/object/wrong scalar), out-of-range and non-integral numbers, unknown keys, sections that are not objects, payloads that are not objects). After every event a probe battery is run (completion count on a document with 300 accounts, subsequence-only query, count details, formatting indent and amount column, diagnostic codes of a fixed document, inline completion and its indent, include-depth and file-size errors of a fixed include chain; advertised capabilities after initialize) and compared with a reference settings model (defaults, documented coercions, non-positive -> default, ill-typed/unknown -> unchanged). Totality: no panic, death or deadlock for any payload. Non-trivial = sequence containing >=1 recognised key with a well-typed or coercible value; distinct by hash of the sequence.",
-		Notes: []string{"never both spellings of one key in one payload (precedence unspecified)", "values whose coercion is not specified (non-integral numbers, numbers beyond 2^53) are used for totality only: the prediction for later probes is switched off for that sequence", "cli.path is never set to an existing program"},
+		ID:          "C19",
+		Race:        true,
+		Rule:        "sequences of 1-4 configuration events: optional initializationOptions, then didChangeConfiguration answered by a scripted workspace/configuration reply; payloads from a shape grammar over all JSON value kinds (recognised keys nested or dotted, optional {\"hledger\":…} wrapper with siblings, well-typed, coercible strings, non-positive, ill-typed (null/array/object/wrong scalar), out-of-range and non-integral numbers, unknown keys, sections that are not objects, payloads that are not objects). After every event a probe battery is run (completion count on a document with 300 accounts, subsequence-only query, count details, formatting indent and amount column, diagnostic codes of a fixed document, inline completion and its indent, include-depth and file-size errors of a fixed include chain, references from a document that stays open and unedited across all events into the file at include depth 3; advertised capabilities after initialize) and compared with a reference settings model (defaults, documented coercions, non-positive -> default, ill-typed/unknown -> unchanged). Totality: no panic, death or deadlock for any payload. Non-trivial = sequence containing >=1 recognised key with a well-typed or coercible value; distinct by hash of the sequence.",
+		Notes:       []string{"never both spellings of one key in one payload (precedence unspecified)", "values whose coercion is not specified (non-integral numbers, numbers beyond 2^53) are used for totality only: the prediction for later probes is switched off for that sequence", "cli.path is never set to an existing program"},
 		Cases:       c19Counts,
 		MustObserve: []string{"events", "probes_compared", "payloads_ill_typed", "payloads_well_typed"},
 		Setup:       func(c *Ctx) { c.State = &c19State{fx: c19Fixtures(filepath.Join(c.Dir, "c19fx"))} },
